@@ -160,7 +160,9 @@ vfps::makePSFromTXT( const std::string& fname
 
     while (ifs.good()) {
         float xf,yf;
-        ifs >> xf >> yf;
+        if (!(ifs >> xf >> yf)) {
+            break;
+        }
         meshindex_t x = std::lround((xf/qmax+0.5f)*ps_size);
         meshindex_t y = std::lround((yf/pmax+0.5f)*ps_size);
         if (x < ps_size && y < ps_size) {
